@@ -90,6 +90,12 @@ def make_class(world, spec):
     def order(self):
         return spec.get('order', 0)
 
+    def is_active(self):
+        if spec.get('state') == 'is_active_raises':
+            from deep.api.plugin import DidNotEnable
+            raise DidNotEnable('%s: dependency missing' % name)
+        return Plugin.is_active(self)
+
     def shutdown(self):
         self._call('shutdown')
 
@@ -127,7 +133,7 @@ def make_class(world, spec):
     def summary(self, mname, labels, namespace, help_string, unit, value):
         self._call('summary', (mname, value))
 
-    ns = dict(__init__=__init__, order=order, shutdown=shutdown, _call=_call, resource=resource, decorate=decorate,
+    ns = dict(__init__=__init__, order=order, is_active=is_active, shutdown=shutdown, _call=_call, resource=resource, decorate=decorate,
               log_tracepoint=log_tracepoint, create_span=create_span, current_span=current_span, counter=counter,
               gauge=gauge, histogram=histogram, summary=summary)
     return type(name, bases, ns)
